@@ -198,8 +198,13 @@ def describe(x):
     return {'t': 'struct', 'cls': 'TrainState', 'aux': aux, 'kv': [[hx(k), describe(getattr(x, k))] for k in ('step', 'params', 'opt_state')]}
   if is_struct(x):
     data = [f.name for f in dataclasses.fields(x) if f.metadata.get('pytree_node', True)]
+    statics = [f.name for f in dataclasses.fields(x) if not f.metadata.get('pytree_node', True) and f.name != 'aux']
     aux = getattr(x, 'aux', -1)
-    return {'t': 'struct', 'cls': type(x).__name__, 'aux': aux if type(aux) is int else -1, 'kv': [[hx(k), describe(getattr(x, k))] for k in data]}
+    if any(getattr(x, st) != aux for st in statics):
+      aux = -1  # every static field of a generated class carries the same token
+    return {'t': 'struct', 'cls': type(x).__name__, 'aux': aux if type(aux) is int else -1, 'statics': statics,
+            'base': 'node' if isinstance(x, fstruct.PyTreeNode) else 'dataclass',
+            'kv': [[hx(k), describe(getattr(x, k))] for k in data]}
   return describe_leaf(x)
 
 
@@ -264,14 +269,29 @@ def nt_class(cls, fields):
   return _NT[key]
 
 
-def struct_class(cls, fields):
-  key = (cls, tuple(fields))
+def struct_class(cls, fields, statics=(), base='dataclass'):
+  """a flax struct dataclass with data (pytree-node) fields `fields` and static (`pytree_node=False`)
+  fields `aux` + `statics`; `base='node'` derives it from `struct.PyTreeNode` instead of decorating"""
+  key = (cls, tuple(fields), tuple(statics), base)
   if key not in _ST:
     ann = {f: Any for f in fields}
-    ann['aux'] = Any
-    C = type(cls, (), {'__annotations__': ann, 'aux': fstruct.field(pytree_node=False, default=0)})
-    _ST[key] = fstruct.dataclass(C)
+    ns = {}
+    for st in ('aux',) + tuple(statics):
+      ann[st] = Any
+      ns[st] = fstruct.field(pytree_node=False, default=0)
+    ns['__annotations__'] = ann
+    if base == 'node':
+      _ST[key] = type(cls, (fstruct.PyTreeNode,), ns)
+    else:
+      _ST[key] = fstruct.dataclass(type(cls, (), ns))
   return _ST[key]
+
+
+def static_names(node):
+  """names of the `pytree_node=False` fields of a struct node of a Tree JSON"""
+  if node.get('cls') == 'TrainState':
+    return ['apply_fn', 'tx']
+  return ['aux'] + list(node.get('statics', []))
 
 
 def build_array(nd):
@@ -342,7 +362,8 @@ def build(j):
       if j['cls'] == 'TrainState':
         fn = Fn(j['aux'])
         return train_state.TrainState(step=vals['step'], apply_fn=fn, params=vals['params'], tx=fn, opt_state=vals['opt_state'])
-      return struct_class(j['cls'], fields)(aux=j['aux'], **vals)
+      statics = list(j.get('statics', []))
+      return struct_class(j['cls'], fields, statics, j.get('base', 'dataclass'))(aux=j['aux'], **{st: j['aux'] for st in statics}, **vals)
     raise InfraError(f'unknown container {t}')
   return build_leaf(j)
 
@@ -429,6 +450,7 @@ def snapshot(x, depth=0):
 
 KEY_POOL = ['a', 'b', 'w', 'kernel', 'bias', '0', '1', '2', '10', '', '.', 'a/b', 'name', 'fields', 'values', 'shape', 'chunks', 'é', '键', '𝛼', 'x' * 31, 'y' * 32, 'z' * 40, 'k' * 256]
 FIELD_POOL = ['a', 'b', 'x', 'y', 'step', 'params', 'count', 'mu', 'nu', 'name', 'fields', 'values', 'é', 'w0']
+STATIC_POOL = ['cfg', 'scale', 'tx', 'apply_fn', 'name', 'step']
 LAYOUTS = ['C', 'C', 'C', 'F', 'strided', 'neg', 'bcast', 'T', 'unaligned', 'ro', 'jax', 'jax']
 SPECIAL_FLOATS = [0.0, -0.0, 1.5, float('inf'), float('-inf'), float('nan'), -float('nan'), 5e-324, 1.7976931348623157e308, 2.2250738585072014e-308, 0.1]
 SPECIAL_INTS = [0, 1, -1, 127, 128, 255, 256, -32, -33, -128, -129, 32767, 32768, 65535, 65536, -32768, -32769, 2**31 - 1, 2**31, 2**32 - 1, 2**32, -(2**31), -(2**31) - 1, 2**63 - 1, 2**63, 2**64 - 1, -(2**63)]
@@ -518,7 +540,10 @@ def gen_tree(rng, depth, big=False):
     return {'t': 'named', 'cls': 'NT' + str(len(fs)), 'kv': [[hx(k), sub()] for k in fs]}
   if kind == 'struct':
     fs = gen_keys(rng, min(width, 5), FIELD_POOL)
-    return {'t': 'struct', 'cls': 'SD' + str(len(fs)), 'aux': rng.randrange(100), 'kv': [[hx(k), sub()] for k in fs]}
+    statics = [n for n in rng.sample(STATIC_POOL, rng.choice([0, 0, 1, 2])) if n not in fs]
+    base = rng.choice(['dataclass', 'dataclass', 'node'])
+    return {'t': 'struct', 'cls': 'SD%d%s%s' % (len(fs), 's%d' % len(statics) if statics else '', 'n' if base == 'node' else ''),
+            'aux': rng.randrange(100), 'statics': statics, 'base': base, 'kv': [[hx(k), sub()] for k in fs]}
   # TrainState with an optax-like opt_state: tuple of namedtuples, one of them empty (optax.EmptyState)
   opt = {'t': 'tuple', 'xs': [
     {'t': 'named', 'cls': 'ScaleByAdamState', 'kv': [[hx('count'), gen_array(rng)], [hx('mu'), sub()], [hx('nu'), sub()]]},
@@ -656,19 +681,32 @@ def edit_state(rng, desc, sd):
       return sd, 'rename-index', path, 'error-any'  # same length, wrong key: KeyError (an error, no path)
     entries.append([hx('0'), {'i': 7}])
     return sd, 'extend', path, 'error'
-  # named / struct
-  if choice < 0.5 and entries:
+  # named / struct: surplus keys are drawn from the class's own static (pytree_node=False) field names,
+  # from the field names / keys of nested containers, and from fresh names
+  have = {unhx(k) for k, _ in entries}
+  cands = [fresh]
+  if t == 'struct':
+    cands += static_names(node) * 2
+  for _, sub in container_paths(node)[1:]:
+    cands += [unhx(k) for k, _ in sub.get('kv', [])]
+  cands = [c for c in cands if c not in have and c != '']
+  surplus = rng.choice(cands)
+  if choice < 0.4 and entries:
     del entries[rng.randrange(len(entries))]
     if t == 'named' and {unhx(k) for k, _ in entries} == {'name', 'fields', 'values'}:
       # what is left looks like the pre-2022 encoding: it is read as such (an error, of whatever kind)
       return sd, 'drop-field-legacy', path, 'error-any'
     return sd, 'drop-field', path, 'error'
-  if choice < 0.75 and entries:
+  if choice < 0.6 and entries:
     i = rng.randrange(len(entries))
-    entries[i][0] = hx(fresh)
-    return sd, 'rename-field', path, 'error'
-  entries.insert(rng.randrange(len(entries) + 1), [hx(fresh), {'i': 7}])
-  return sd, 'add-field', path, 'error'
+    entries[i][0] = hx(surplus)
+    kind = 'rename-field'
+  else:
+    entries.insert(rng.randrange(len(entries) + 1), [hx(surplus), {'i': 7}])
+    kind = 'add-field-static-name' if t == 'struct' and surplus in static_names(node) else 'add-field'
+  if t == 'named' and {unhx(k) for k, _ in entries} == {'name', 'fields', 'values'}:
+    return sd, kind + '-legacy', path, 'error-any'
+  return sd, kind, path, 'error'
 
 
 # ------------------------------------------------------------------------------------------------
@@ -845,6 +883,52 @@ def check_roundtrip_batch(ctx, drv, cases, tag):
       ctx.violation(tag + 'roundtrip-model-mismatch', mism + f' — tree {str(rec["nD"])[:300]}', case, concrete=False)
 
 
+LEGACY = {'name', 'fields', 'values'}
+
+
+def spec_verdict(t, s):
+  """The property's mismatch clause as a Python function of (target Tree JSON, state STree JSON),
+  independent of the model: 'reject' when at some common key path a target dict key is missing from
+  the state, a list / tuple length differs, or the key set differs from the namedtuple's fields /
+  the dataclass's *data* (pytree-node) fields (surplus or missing); 'accept' when nothing of the kind
+  occurs anywhere and every entry the restore needs is there; None when the pair is outside these
+  clauses (a leaf where a dict is needed, a legacy-looking namedtuple state, wrong list index keys)."""
+  if not (isinstance(t, dict) and 't' in t):
+    return 'accept'
+  if not (isinstance(s, dict) and 'd' in s):
+    return None
+  st = {unhx(k): v for k, v in s['d']}
+  kind = t['t']
+  if kind in ('list', 'tuple'):
+    if len(st) != len(t['xs']):
+      return 'reject'
+    subs = [(str(i), x) for i, x in enumerate(t['xs'])]
+    if any(k not in st for k, _ in subs):
+      return None
+  else:
+    subs = [(unhx(k), v) for k, v in t['kv']]
+    names = {k for k, _ in subs}
+    if kind in ('dict', 'fdict'):
+      if not names <= set(st):
+        return 'reject'
+    elif kind == 'named':
+      if set(st) == LEGACY and names != LEGACY:
+        return None
+      if set(st) != names:
+        return 'reject'
+    else:  # struct: the state dict holds exactly the data fields; static fields are not part of it
+      if set(st) != names:
+        return 'reject'
+  out = 'accept'
+  for k, sub in subs:
+    v = spec_verdict(sub, st[k])
+    if v == 'reject':
+      return 'reject'
+    if v is None:
+      out = None
+  return out
+
+
 def check_restore_batch(ctx, drv, cases, tag):
   """cases: {'kind': 'restore', 'target': Tree JSON, 'state': STree JSON, 'edit': str, 'path': [..], 'expect': str}"""
   reqs = []
@@ -863,6 +947,12 @@ def check_restore_batch(ctx, drv, cases, tag):
     r_after = call(serialization.from_state_dict, tgt, serialization.to_state_dict(tgt))
     if r_after[0] != 'ok' or norm(describe(r_after[1])) != norm(D):
       rec['fail'] = rec['fail'] or ('restore-after-error', f'a plain round trip right after this restore fails: {str(r_after)[:200]}')
+    verdict = spec_verdict(D, case['state'])
+    ctx.count('restore_spec_verdict', str(verdict))
+    if verdict == 'reject' and r[0] == 'ok':
+      rec['fail'] = rec['fail'] or ('mismatch-accepted-silently', 'from_state_dict accepted a state whose key set / length differs from the target (entries silently dropped or defaulted)')
+    elif verdict == 'accept' and r[0] != 'ok':
+      rec['fail'] = rec['fail'] or ('matching-state-rejected', f'from_state_dict raised {r[1]}: {r[2][:120]!r} on a state that has every entry the target needs and no mismatch')
     path = '/'.join(['.'] + list(case.get('path', [])))
     exp = case.get('expect', 'free')
     if exp == 'error':
@@ -1193,6 +1283,11 @@ def small_targets():
   for fs in ([], ['a'], ['a', 'b'], ['b', 'a'], ['x', 'y'], ['name', 'fields', 'values'], ['values', 'name', 'fields']):
     fams.append({'t': 'named', 'cls': 'P' + str(len(fs)), 'kv': [[hx(k), L(30 + i)] for i, k in enumerate(fs)]})
     fams.append({'t': 'struct', 'cls': 'Q' + str(len(fs)), 'aux': 5, 'kv': [[hx(k), L(40 + i)] for i, k in enumerate(fs)]})
+  for fs, statics, base in ((['a'], ['cfg'], 'dataclass'), (['a', 'b'], ['tx', 'scale'], 'node'), ([], ['cfg'], 'node'), (['x'], [], 'node')):
+    fams.append({'t': 'struct', 'cls': 'R%d%d%s' % (len(fs), len(statics), base[0]), 'aux': 6, 'statics': statics, 'base': base,
+                 'kv': [[hx(k), L(45 + i)] for i, k in enumerate(fs)]})
+  fams.append({'t': 'struct', 'cls': 'TrainState', 'aux': 2, 'kv': [[hx('step'), L(3)], [hx('params'), {'t': 'fdict', 'kv': [[hx('w'), A]]}],
+               [hx('opt_state'), {'t': 'tuple', 'xs': [{'t': 'named', 'cls': 'EmptyState', 'kv': []}]}]]})
   # one level of nesting: each container kind holding containers
   inner = [{'t': 'dict', 'kv': [[hx('a'), L(1)]]}, {'t': 'list', 'xs': [L(1), A]}, {'t': 'tuple', 'xs': []}, {'t': 'named', 'cls': 'P2', 'kv': [[hx('a'), L(1)], [hx('b'), A]]}]
   for x, y in itertools.product(inner, repeat=2):
@@ -1224,6 +1319,11 @@ def exhaustive_restore(ctx, drv):
       raise InfraError(f'to_state_dict failed on a small target: {r}')
     states.append(describe_state(r[1]))
   states += legacy_states()
+  # every struct state again with one surplus key named like one of its own static fields
+  for t, sd in zip(fams, list(states)):
+    if isinstance(t, dict) and t.get('t') == 'struct':
+      for st in static_names(t):
+        states.append({'d': sd['d'] + [[hx(st), {'i': 9}]]})
   cases = []
   for t in fams:
     for s in states:
